@@ -9,7 +9,7 @@ LEAN_MODULES = ['Glom.Props.C11']
 FACT_FILES = ['TFacts', 'ExcFacts', 'RegFacts', 'MutFacts', 'c11']
 READY = True
 MANIFEST = dict(
-    text="Lean 4 theorems about an executable model of Assign.__init__/glomit, _assign_op, _apply_for_each and the `assign` registry op on a heap with object identity: for every heap (sharing, cycles), target, wildcard-free destination of any length, value and `missing` factory the model's outcome IS the plain-Python nested assignment (same object returned; result heap equal to `pySet`; every other pre-existing cell untouched; on any failure every pre-existing cell unchanged; with `missing` exactly one factory call per absent segment, the attach is the last and only write to a pre-existing cell); put-get under the hypothesis the proof forces (counter-example kept); wildcard destinations assign at every match in order. Facts obligation by `decide` on the branch table of _assign_op regenerated from /repo; model tied to the code by differential execution (full heap snapshot, exception class chain, factory call count).",
+    text="Lean 4 theorems about an executable model of Assign.__init__/glomit, _assign_op, _apply_for_each and the `assign` registry op on a heap with object identity: for every heap (sharing, cycles), target, wildcard-free destination of any length, value and `missing` factory the model's outcome IS the plain-Python nested assignment (same object returned; result heap equal to `pySet`; every other pre-existing cell untouched; on any failure every pre-existing cell unchanged; with `missing` exactly one factory call per absent segment, the attach is the last and only write to a pre-existing cell); put-get under the hypothesis the proof forces (counter-example kept), now covering item bindings in the scope frame; read-back in the same chain [c11_read_checks]: in `(Assign(path, …), readPath)` the later step reads exactly what the plain-Python assignment leaves, S-rooted paths from the frame the destination was bound in (also when `missing` had to create the FIRST segment, i.e. the scope variable itself); the path an Assign keeps is the path as it is read — S.a / Path(S,'a') name the scope variable a [c11_facts_s_first, c11_refines_spec: a facts obligation on mutation._s_first_item / core._s_first_magic]; wildcard destinations assign at every match in order. Facts obligation by `decide` on the branch table of _assign_op regenerated from /repo; model tied to the code by differential execution (full heap snapshot, exception class chain, factory call count, the value a later chain step reads back, the scope frame as a later chain step sees it, the caller's scope mapping unchanged).",
     note="trusted: Lean kernel + {propext, Classical.choice, Quot.sound}; extractor (extract/facts/c11.py); harness/driver; CPython's setitem/setattr/delitem/delattr on dict/list/tuple/set/plain instances and the fault classes of harness/props/mutobjs.py as modelled in Glom/Model/C11.lean (validated by the correspondence only); default registry (C13 covers registration); `**` destinations and container *literals* as values are outside the model (arg-mode rebuilding is C08); the wildcard theorem covers destinations whose parent exists (a wildcard path that also needs `missing` is covered by the correspondence only).",
     technique='Lean 4 refinement proof (Assign model = plain nested assignment on a heap, frame + atomicity lemmas) + facts obligation by decide + differential correspondence',
     ref='DESIGN.md §3 C11')
@@ -17,8 +17,11 @@ RULE = ('type-directed: a nested target (dict/OrderedDict/dict subclass with __d
         'attribute objects incl. read-only-property, raising-__setattr__/__setitem__ classes; shared '
         'sub-objects, cycles) is generated as a heap graph; a destination is derived by walking it '
         '(length 1-5 quick / 1-8 thorough) and ends in an existing or a new slot, or stops existing 1-3 '
-        'segments before the end; spelled as dotted text, Path(...), T[..]/T.attr, mixtures, S-rooted, '
-        'with 0-2 `*` wildcards; values: scalars, plain objects, T / T-paths into the target (sharing, '
+        'segments before the end — for S-rooted destinations (12%) in 40% of those the FIRST segment, i.e. the '
+        'scope variable itself, is the absent one —; spelled as dotted text, Path(...), T[..]/T.attr, mixtures, '
+        'S-rooted (first step as S[name], S.name or Path(S, name)), with 0-2 `*` wildcards; 75% of the S-rooted '
+        'and 30% of the other cases run as a chain (Assign, peek, read-back of the destination or a prefix of it '
+        'from the same root) so that the frame an S-rooted Assign binds in and put-get are observed; values: scalars, plain objects, T / T-paths into the target (sharing, '
         'self-reference), failing T-paths; missing in {None, dict, list, object factory, tuple, raising '
         'factory}; a one-edit mutation stream plants a bad segment / wrong access kind at every position. '
         'non-trivial = path length >= 2, or an error, or a factory call, or a wildcard; distinct = '
@@ -31,11 +34,10 @@ ASSUMPTIONS = ['default registry (no user registrations): C13 covers registratio
                '`**` destinations are skipped (enumeration order of `**` is C14)']
 
 # Probability of spelling the FIRST step of an S-rooted destination as `S.name` / `Path(S, name)` instead
-# of `S[name]`.  Reading such a path means the scope variable (`_s_first_magic`), but Assign / Delete
-# re-root the path at T and do getattr / setattr on the ChainMap object: `glom({}, (Assign(S.a, 5), S.a))`
-# raises PathAccessError on the read-back (reported as a potential genuine defect; classify() below
-# recognises exactly that shape as `s_first_plain`).  0.0 until it is repaired or recorded as known.
-S_FIRST_PLAIN_P = 0.0
+# of `S[name]`: all three name the scope variable (reading: core._s_first_magic; Assign / Delete:
+# mutation._s_first_item, repaired defect 94a9ae1 — before it `glom({}, (Assign(S.a, 5), S.a))` raised
+# PathAccessError on the read-back, the Assign having set an attribute on the ChainMap object)
+S_FIRST_PLAIN_P = M.S_FIRST_PLAIN_P
 
 MISSING = [None] * 8 + ['dict'] * 5 + ['list', 'obj', 'obj', 'raise']
 
@@ -58,30 +60,6 @@ def gen_value(rng, heap, root):
     return {'t': steps}
 
 
-def s_first(rng, sp):
-    """the first step of an S-rooted path in `S[name]` spelling (see S_FIRST_PLAIN_P)"""
-    parts = sp.get('parts')
-    if not parts:
-        return sp
-    first = parts[0]
-    key = first['seg'] if 'seg' in first else (first['t'][0][1] if first.get('t') else None)
-    rest = [] if 'seg' in first else first['t'][1:]
-    if 'seg' not in first and not first.get('t'):
-        return sp
-    if rng.random() < S_FIRST_PLAIN_P:
-        if isinstance(key, dict) and 's' in key and rng.random() < 0.5 and 'seg' not in first:
-            new = {'t': [['.', key]] + rest}
-        elif 'seg' in first or not rest:
-            new = {'seg': key}
-        else:
-            new = first
-    elif 'seg' in first:
-        new = {'t': [['[', key]]}
-    else:
-        new = {'t': [['[' if first['t'][0][0] in ('.', 'P') else first['t'][0][0], key]] + rest}
-    return {'parts': [new] + parts[1:]}
-
-
 def gen_readback(rng, steps, style, p, sroot=False):
     """chain mode: `(Assign(dest, …), <peek>, readPath)` — a later step of the same chain reads the
     destination path (or a non-empty prefix of it) back, from the same root, in the same spelling"""
@@ -89,7 +67,7 @@ def gen_readback(rng, steps, style, p, sroot=False):
         return None
     n = len(steps) if rng.random() < 0.6 else rng.randint(1, len(steps))
     sp = M.spell(rng, steps[:n], style)
-    return {'spelling': s_first(rng, sp) if sroot else sp}
+    return {'spelling': M.s_first(rng, sp, S_FIRST_PLAIN_P) if sroot else sp}
 
 
 def one_case(rng, tier, classes, cflags, force=None):
@@ -130,7 +108,7 @@ def one_case(rng, tier, classes, cflags, force=None):
     style = M.choose_style(rng, steps, sroot)
     sp = M.spell(rng, steps, style)
     if sroot:
-        sp = s_first(rng, sp)
+        sp = M.s_first(rng, sp, S_FIRST_PLAIN_P)
     if scope is None:
         cflags = [f for f in cflags if f[0] != 'Scope']
     return {'classes': classes, 'cflags': cflags, 'heap': heap, 'target': root, 'scope': scope,
@@ -318,17 +296,6 @@ def shrink(case):
         elif 'text' in sp and '.' in sp['text']:
             c = dict(base); c['readback'] = {'spelling': {'text': sp['text'].rsplit('.', 1)[0]}}
             yield c
-
-
-def classify(case, verdict):
-    """known-finding classifiers (KNOWN_FINDINGS.txt): `s_first_plain` — an S-rooted destination whose
-    first step is spelled S.name / Path(S, name): Assign does setattr on the ChainMap object"""
-    if case.get('root') == 'S':
-        for sp in [case['spelling']] + ([case['readback']['spelling']] if case.get('readback') else []):
-            st = M.steps_of_spelling(sp)
-            if st and st[0][0] in ('.', 'P'):
-                return 's_first_plain'
-    return None
 
 
 def focus(disagreements, facts_changed):
